@@ -11,10 +11,15 @@ package frr
 // with the FRR-mode model).
 
 import (
+	"encoding/json"
 	"fmt"
 	"math/rand"
 	"reflect"
 	"testing"
+
+	"go.universe.tf/metallb/internal/bgp"
+	metallbconfig "go.universe.tf/metallb/internal/config"
+	"go.universe.tf/metallb/internal/logging"
 
 	"github.com/go-kit/log"
 	frrv1beta1 "github.com/metallb/frr-k8s/api/v1beta1"
@@ -123,4 +128,171 @@ func TestVerifK8s(t *testing.T) {
 		}
 	}
 	_ = fmt.Sprint
+}
+
+// ---------------------------------------------------------------------------
+// Histories through the real API of the frr-k8s session manager: NewSession /
+// Set (valid) / Set the manager must refuse (> 63 communities) / Close /
+// SyncBFDProfiles (also used as "regeneration from an unrelated trigger").
+// After EVERY step the last FRRConfiguration handed to the callback must equal
+// the one a fresh manager produces from the LAST SUCCESSFULLY requested
+// advertisement sets (and the same BFD profiles): a refused Set returns an error
+// and leaves the previous set in force.
+
+func vKSpecJSON(c *frrv1beta1.FRRConfiguration) string {
+	if c == nil {
+		return "<none>"
+	}
+	b, err := json.Marshal(c.Spec)
+	if err != nil {
+		panic(err)
+	}
+	return string(b)
+}
+
+func vKBFD(k int) map[string]*metallbconfig.BFDProfile {
+	m := map[string]*metallbconfig.BFDProfile{}
+	for i := 0; i < k%3; i++ {
+		rx := uint32(100 + 10*k + i)
+		m[fmt.Sprintf("prof%d", i)] = &metallbconfig.BFDProfile{Name: fmt.Sprintf("prof%d", i), ReceiveInterval: &rx, EchoMode: i == 1}
+	}
+	return m
+}
+
+// a fresh manager, driven through the API, given only the current sets
+func vKFresh(cur []vSess, node string, bfd map[string]*metallbconfig.BFDProfile) *frrv1beta1.FRRConfiguration {
+	var got *frrv1beta1.FRRConfiguration
+	sm := NewSessionManager(log.NewNopLogger(), logging.LevelInfo, node, "verif-ns")
+	sm.SetEventCallback(func(c interface{}) {
+		cfg := c.(frrv1beta1.FRRConfiguration)
+		got = cfg.DeepCopy()
+	})
+	if err := sm.SyncBFDProfiles(bfd); err != nil {
+		return nil
+	}
+	for _, s := range cur {
+		se, err := sm.NewSession(log.NewNopLogger(), vParams(s))
+		if err != nil {
+			return nil
+		}
+		if err := se.Set(vAdvertisements(s)...); err != nil {
+			return nil
+		}
+	}
+	return got
+}
+
+func TestVerifK8sHist(t *testing.T) {
+	out := vOpen()
+	defer out.Close()
+	r := vRand()
+	n := vN(60)
+	node := "node-a"
+	// fixed first history: two sessions, a refused Set on the second, then a Set on the first
+	base := vSess{MyASN: 100, RouterID: "10.1.1.254", PeerAddr: "10.2.2.254", PeerASN: 200, Port: 179, Hold: -1, Keep: -1, Connect: -1}
+	b2 := base
+	b2.PeerAddr = "10.2.2.255"
+	many := vAdv{Prefix: "172.16.1.11/32", Comms: []string{}}
+	for k := 0; k < 64; k++ {
+		many.Comms = append(many.Comms, fmt.Sprintf("65000:%d", 1000+k))
+	}
+	p, q := "172.16.1.10/32", "172.16.1.11/32"
+	hs := []vHist{{Base: []vSess{base, b2}, Ops: []vHistOp{
+		{Kind: "new", Sess: 0}, {Kind: "new", Sess: 1},
+		{Kind: "set", Sess: 1, Advs: []vAdv{{Prefix: p, LP: 100, Comms: []string{"65000:100"}}, {Prefix: q, Comms: []string{}}}},
+		{Kind: "setbad", Sess: 1, Why: "more than 63 communities", Advs: []vAdv{{Prefix: p, LP: 100, Comms: []string{"65000:100"}}, many, {Prefix: q, Comms: []string{}}}},
+		{Kind: "set", Sess: 0, Advs: []vAdv{{Prefix: p, Comms: []string{}}}},
+	}}}
+	for len(hs) < n {
+		hs = append(hs, vGenHist(r, false))
+	}
+	for hi, h := range hs {
+		sm := NewSessionManager(log.NewNopLogger(), logging.LevelInfo, node, "verif-ns")
+		var last *frrv1beta1.FRRConfiguration
+		sm.SetEventCallback(func(c interface{}) {
+			cfg := c.(frrv1beta1.FRRConfiguration)
+			last = cfg.DeepCopy()
+		})
+		sessions := make([]bgp.Session, len(h.Base))
+		state := make([][]vAdv, len(h.Base))
+		alive := make([]bool, len(h.Base))
+		bfd := map[string]*metallbconfig.BFDProfile{}
+		bad := false
+		var cur []vSess
+		for step, op := range h.Ops {
+			fail := func(sig, what string) {
+				out.Fail(sig, fmt.Sprintf("history %d step %d (%s session %d): %s", hi, step, op.Kind, op.Sess, what), map[string]any{"history": h, "step": step})
+				bad = true
+			}
+			switch op.Kind {
+			case "new":
+				s, err := sm.NewSession(log.NewNopLogger(), vParams(h.Base[op.Sess]))
+				if err != nil {
+					fail("k8s-history-api-error", fmt.Sprintf("NewSession: %v", err))
+					break
+				}
+				sessions[op.Sess], alive[op.Sess], state[op.Sess] = s, true, nil
+			case "set":
+				b := h.Base[op.Sess]
+				b.Advs = op.Advs
+				if err := sessions[op.Sess].Set(vAdvertisements(b)...); err != nil {
+					fail("k8s-history-api-error", fmt.Sprintf("Set: %v", err))
+					break
+				}
+				state[op.Sess] = vCopyAdvs(op.Advs)
+			case "setbad":
+				b := h.Base[op.Sess]
+				b.Advs = op.Advs
+				if err := sessions[op.Sess].Set(vAdvertisements(b)...); err == nil {
+					fail("k8s-invalid-set-accepted", "Set with an advertisement list the manager must refuse ("+op.Why+") returned no error")
+				}
+				// the previous set stays in force
+			case "resync":
+				bfd = vKBFD(step)
+				if err := sm.SyncBFDProfiles(bfd); err != nil {
+					fail("k8s-history-api-error", fmt.Sprintf("SyncBFDProfiles: %v", err))
+				}
+			case "close":
+				if err := sessions[op.Sess].Close(); err != nil {
+					fail("k8s-history-api-error", fmt.Sprintf("Close: %v", err))
+					break
+				}
+				alive[op.Sess], state[op.Sess] = false, nil
+			}
+			if bad {
+				break
+			}
+			cur = nil
+			for i, b := range h.Base {
+				if alive[i] {
+					b.Advs = vCopyAdvs(state[i])
+					cur = append(cur, b)
+				}
+			}
+			want := vKFresh(cur, node, bfd)
+			if a, b := vKSpecJSON(last), vKSpecJSON(want); a != b {
+				fail("k8s-history-dependent", "the FRRConfiguration the manager last produced differs from the one a fresh manager produces from the last successfully requested advertisement sets")
+				out.Stat("k8s_history_failures", 1)
+				break
+			}
+		}
+		out.Stat("k8s_histories", 1)
+		for _, op := range h.Ops {
+			switch op.Kind {
+			case "setbad":
+				out.Stat("k8s_hist_rejected_set", 1)
+			case "resync":
+				out.Stat("k8s_hist_resync", 1)
+			case "close":
+				out.Stat("k8s_hist_close", 1)
+			case "set":
+				out.Stat("k8s_hist_set", 1)
+			}
+		}
+		if !bad && last != nil && len(cur) > 0 {
+			perm := vPermute(r, cur)
+			out.Case(30000+hi, "frrk8s-history", cPair(cSessList(cur), cSessList(perm)),
+				map[string]any{"sessions": cur, "node": node, "ok": true, "cfg": vKProject(*last), "history": h})
+		}
+	}
 }
